@@ -2,6 +2,7 @@ from hed.schema.hed_schema_constants import HedSectionKey
 from hed.schema.hed_schema_constants import HedKey
 
 import inflect
+from fractions import Fraction
 
 pluralize = inflect.engine()
 pluralize.defnoun("hertz", "hertz")
@@ -240,12 +241,20 @@ class UnitEntry(HedSchemaEntry):
     def _get_conversion_factor(self, modifier_entry):
         base_factor = modifier_factor = 1.0
         try:
-            base_factor = float(self.attributes.get(HedKey.ConversionFactor, "1.0").replace("^", "e"))
+            base_factor = self._factor_as_float(self.attributes.get(HedKey.ConversionFactor, "1.0"))
             if modifier_entry:
-                modifier_factor = float(modifier_entry.attributes.get(HedKey.ConversionFactor, "1.0").replace("^", "e"))
+                modifier_factor = self._factor_as_float(modifier_entry.attributes.get(HedKey.ConversionFactor, "1.0"))
         except (ValueError, AttributeError):
             pass  # Just default to 1.0
         return base_factor * modifier_factor
+
+    @staticmethod
+    def _factor_as_float(text):
+        """ A conversion factor is a decimal literal or base^exponent (e.g. 10^-3). """
+        base, caret, exponent = text.partition("^")
+        if not caret:
+            return float(text)
+        return float(Fraction(base) ** int(exponent))
 
     def get_conversion_factor(self, unit_name):
         """Returns the conversion factor from combining this unit with the specified modifier
